@@ -134,8 +134,12 @@ class DWorld:
         else:
             self.X = vc.opaque(name + ".X.addr", "addr")
             vc.assume(self.X != self.A and self.X != self.B)
-        self.Sx = SCFG.gen_service(vc, name + ".Sx", with_options=False)
-        # any other entry: another service, or the same service from another source
+        # any other entry: another service, or the same service from another source (the latter
+        # is also named explicitly, which is what a bounded search needs to hit it)
+        if self.X is not self.A and vc.choice(name + ".Sx_is_the_same_service", (False, True)):
+            self.Sx = self.S
+        else:
+            self.Sx = SCFG.gen_service(vc, name + ".Sx", with_options=False)
         if self.X is self.A:
             vc.assume(self.Sx != self.S)
         self.S1 = self.Sx
@@ -292,31 +296,31 @@ def _elem_head(vc, v, entering):
 
 def _addr_head(vc, v, entering):
     if entering:
-        vc.stash("watch.addr", v["addr"])
+        vc.stash("watch.addr", v["$target"][0])
 
 
 def _svc_head(vc, v, entering):
     vc.stash("watch.inner", entering)
     if entering:
-        vc.stash("watch.service", v["s"])
+        vc.stash("watch.service", v["$target"])
 
 
 def _nf_filter_head(vc, v, entering):
     st = vc.stashed("notify")
     if entering:
-        st["filter"] = v["service_filter"]
+        st["filter"] = v["$target"][0]
 
 
 def _nf_listener_head(vc, v, entering):
     st = vc.stashed("notify")
     if entering:
-        st["listener"] = v["listener"]
+        st["listener"] = v["$target"]
 
 
 def _nf_all_head(vc, v, entering):
     st = vc.stashed("notify")
     if entering:
-        st["all"] = v["listener"]
+        st["all"] = v["$target"]
 
 
 _NOTIFY_LOOPS = {"head": _nf_filter_head}, {"head": _nf_listener_head}, {"head": _nf_all_head}
